@@ -27,7 +27,7 @@ UNITS = {
 
 PROPS = {
     'C06': {
-        'units': ['unitE'],
+        'units': ['unitE', 'unitF'],
         'assumptions': ['A-sem', 'A-deps', 'A-arena', 'A-std', 'A-iter', 'A-ext', 'A-extract', 'A-verus'],
         'rules': 'R1 R2 R4 (loop bodies; `continue` -> `return`) R4c R5e R6 R10 (`UsedVisitor{..}; dfs_in_order(..)` ==> scan_body summary; `iter().for_each(push_func)` ==> push_all_funcs summary); panic mode: absent',
         'claimed': [
@@ -35,6 +35,7 @@ PROPS = {
             'UsedVisitor id hooks (real): every id reported by the traversal (unit F: every entity operand) becomes used',
             'root loop bodies of Used::new (real): exports, active data segments, declared element segments, active element segments of imported tables are marked',
             'pop loop bodies of Used::new (real), one per entity kind: after scanning x everything x refers to is marked (function: its type + body operands; table: its active segments; memory: its active data segments; global: its initialiser; data: memory + offset global; element: every function / global item of either reference type, table, offset global)',
+            'unit F (C16): the generated Visit impls report every entity operand of every instruction to the id hooks (so a body scan sees every reference)',
             'lemma_worklist_closure / lemma_closed_at_exit: those body contracts + empty stacks at exit give closure of the used set under the reference relation',
             'gc::run (whole real function, loops by summary) and each of its nine loop bodies: an entity is live afterwards iff it was live and marked used (imports: iff the entity they import is used); nothing else changes',
         ],
